@@ -116,6 +116,14 @@ add('C07', 'model_checking',
     'TLA+ spec Expr.tla (&& || ?: ??, truthiness table): TLC checks the transcribed fold machine against the rule on every enumerated expression and on random parenthesised trees and exports expected values and the truth table; expressions run on the real interpreter as `v = (E)` with value+type read-back; the truth table is pushed through if{}, ->if, ->!, !if and ?:',
     'All a<op>b over 57 operand forms (true false null, undefined variable, numbers, the 9 false words and other words in three spellings, parenthesised comparisons) x 4 operators, every 3-operand shape over 8 operands x 16 operator pairs, 3000/20000 random trees; 171 (word, exit number) rows x 5 entry points.',
     'expressions where different operator classes meet inside one pair of parentheses are executed, not judged; undefined variable judged only as left operand of ??', 'DESIGN §6 C07')
+add('C29', 'model_checking',
+    'TLA+ spec History.tla (+HistoryFile/HistoryScan/HistoryEval): TLC checks durability of the abstract history file under writes, crashes at every prefix of an append and reloads, and that the transcribed openHist loader loop equals the cut-at-newlines rule on every byte string in the bound; state-graph paths, byte-offset sweeps and TLC-evaluated random histories are replayed on the real shell/history package with real files',
+    'Every reachable state of the session machine (3 entries incl. one longer than 64 KiB, <=4/5 appends, <=2 crashes, <=3 sessions) is reproduced with history.New/History.Write on a real file, a crash being the file cut back to a byte offset inside the interrupted append (sweeps: every offset); the list a new session loads must be one of the lists the specification allows (every completed append in order, cut appends optional). Histories of 1-20 appends are evaluated by TLC (HistoryEval) and replayed the same way.',
+    'entries are trimmed valid UTF-8 texts; append-only file, one writer; in-session list not judged', 'DESIGN §6 C29')
+add('C30', 'model_checking',
+    'TLA+ spec Cache.tla (+CacheEval): TLC checks that the two-layer machine of utils/cache (memory layer, sqlite layer, lazily created namespaces) answers every read as the single-map rule (latest unexpired write of that namespace+key, else nothing); state-graph paths and TLC-evaluated random histories are replayed on the real package with a private sqlite file and the real clock',
+    'All histories of <=4/5 writes (TTL past/near/far), reads, trims, clears and clock ticks over 2 namespaces x 2 keys x 2 values are explored by TLC (Agree, NoForeignNoStale, SqlIsMap); every state of the <=3/4-operation graph plus random histories are replayed through cache.Read/Write/Trim/Clear with values of 6 Go types, near TTL = now+5 s and Tick = sleeping past it; every read is compared with the specification.',
+    'reads closer than 0.4 s to an expiry second are not judged (timing slop, Infra if >20%); which layer answered is not observable', 'DESIGN §6 C30')
 
 
 def main():
